@@ -1,4 +1,4 @@
-import VermouthProofs.C01_Inter
+import VermouthProofs.C01_Functional
 import VermouthProofs.Iso
 /-!
 # C01 — resolution transformation conserves atoms, residues and connectivity
@@ -255,6 +255,14 @@ theorem weights_exact (m : MolIn) (ps : List Placement) (r : Result) (h : assemb
     unfold beadOf; simp [hl]
   | some ws =>
     rw [(stash_old_resid m (placeAll (order ps)) n ws hl).2.2.1]; rfl
+
+/-- `weights_exact` without the `Functional` hypothesis: it follows from the matches and weight
+tables being dictionaries (`PlacementWF`: distinct atoms per match, distinct particles per
+weight table). -/
+theorem weights_exact_wf (m : MolIn) (ps : List Placement) (r : Result) (h : assemble m ps = .ok r)
+    (hwf : ∀ p ∈ ps, PlacementWF p) (b : Bead) (hb : b ∈ r.beads) (a : Int) (w : Rat) :
+    b.weights.lookup a = some w ↔ (a, b.key, w) ∈ logSpec Off.zero (order ps) :=
+  weights_exact m ps r h (functional_of_wf ps (assemble_ok m ps r h).1 hwf) b hb a w
 
 /-- … and which pairs are in `logSpec`: the contribution of one placement at its offsets. -/
 theorem weights_source (ps : List Placement) (a k : Int) (w : Rat)
@@ -525,11 +533,13 @@ def exP3 : Placement := { molToBlock := [(21, [(0, 1)])], block := exBlock, refs
 
 instance (p : Placement) : Decidable (SingleResidue p) := by unfold SingleResidue; infer_instance
 instance (es : List (Int × Int × Rat)) : Decidable (Functional es) := by unfold Functional; infer_instance
+instance (p : Placement) : Decidable (PlacementWF p) := by unfold PlacementWF; infer_instance
 
 -- found in the order [exP2, exP1]; processed in the order [exP1, exP2] (lowest atom key 10 before 20)
 example : order [exP2, exP1] = [exP1, exP2] := by decide
 example : (match assemble exMol [exP2, exP1] with | .ok _ => true | .error _ => false) = true := by decide
 example : Functional (logSpec Off.zero (order [exP2, exP1])) := by decide
+example : ∀ p ∈ [exP2, exP1], PlacementWF p := by decide
 example : ∀ q ∈ order [exP2, exP1], SingleResidue q := by decide
 -- particles 1,2 belong to the first placement, 3,4 to the second; 2 and 4 are spawned
 example : InPlacement (order [exP2, exP1]) 0 1 := ⟨[], exP1, [exP2], by decide, rfl, by decide⟩
